@@ -4,7 +4,7 @@
 Written from `src/oomd/dropin/FsDropInService.cpp` and `src/oomd/dropin/DropInServiceAdaptor.cpp`.
 The model is of the code **after** the two repairs proposed in `/verif/fixes`:
 
-* `C12-ruleset-delay` / `C14-stoi-escape.patch` – `std::stoi` of `post_action_delay` /
+* `C12-ruleset-delay.patch` (proposed by the C12 check; C14 relies on it) – `std::stoi` of `post_action_delay` /
   `prekill_hook_timeout` in `ConfigCompiler.cpp:compileRuleset` no longer lets an exception escape
   `compileDropIn` (which runs on the watcher thread, where it ends in `std::terminate`);
 * `C14-invalid-rewrite.patch` – every failure path of `FsDropInService::processDropInAdd` schedules
@@ -35,7 +35,8 @@ namespace OomdModel.Watcher
 
 /-- which of the proposed repairs are present in the code being modelled -/
 structure Fixes where
-  /-- `std::stoi` failures are turned into a rejected ruleset (`ConfigCompiler.cpp:compileRuleset`) -/
+  /-- `std::stoi` failures are turned into a rejected ruleset (`ConfigCompiler.cpp:compileRuleset`,
+  `fixes/C12-ruleset-delay.patch`) -/
   stoiCaught : Bool
   /-- a failed (re)load schedules the removal of the tag (`FsDropInService.cpp:processDropInAdd`) -/
   removeOnFail : Bool
